@@ -930,7 +930,7 @@ def _emit_block(
         )
         block_lines.append(f"{inner_indent}if (__redu_pwm < 0) {{ __redu_pwm = 0; }}")
         block_lines.append(f"{inner_indent}if (__redu_pwm > 255) {{ __redu_pwm = 255; }}")
-        block_lines.append(f"{inner_indent}if (__redu_pwm == 0) {{")
+        block_lines.append(f"{inner_indent}if (__redu_effective == 0.0f) {{")
         block_lines.append(f"{inner_indent}  digitalWrite({in1_expr}, LOW);")
         block_lines.append(f"{inner_indent}  digitalWrite({in2_expr}, LOW);")
         block_lines.append(f"{inner_indent}}} else if (__redu_effective > 0.0f) {{")
@@ -941,7 +941,7 @@ def _emit_block(
         block_lines.append(f"{inner_indent}  digitalWrite({in2_expr}, HIGH);")
         block_lines.append(f"{inner_indent}}}")
         block_lines.append(f"{inner_indent}analogWrite({enable_expr}, __redu_pwm);")
-        block_lines.append(f"{inner_indent}if (__redu_pwm == 0) {{")
+        block_lines.append(f"{inner_indent}if (__redu_effective == 0.0f) {{")
         block_lines.append(f"{inner_indent}  {mode_var} = F(\"coast\");")
         block_lines.append(f"{inner_indent}}} else {{")
         block_lines.append(f"{inner_indent}  {mode_var} = F(\"drive\");")
@@ -1751,6 +1751,11 @@ def _emit_block(
                 f"{indent}  if (__redu_pulse > {max_pulse_var}) {{ __redu_pulse = {max_pulse_var}; }}"
             )
             lines.append(f"{indent}  {pulse_var} = __redu_pulse;")
+            # static_cast<int> truncates toward zero: shift a negative angle down by
+            # one so that it is rounded to the nearest integer as well.
+            lines.append(
+                f"{indent}  if (__redu_angle < 0.0f) {{ __redu_angle -= 1.0f; }}"
+            )
             lines.append(
                 f"{indent}  {servo_obj}.write(static_cast<int>(__redu_angle + 0.5f));"
             )
@@ -1790,7 +1795,10 @@ def _emit_block(
             )
             lines.append(f"{indent}  {angle_var} = __redu_angle;")
             lines.append(
-                f"{indent}  {servo_obj}.writeMicroseconds(static_cast<int>({pulse_var} + 0.5f));"
+                f"{indent}  if (__redu_pulse < 0.0f) {{ __redu_pulse -= 1.0f; }}"
+            )
+            lines.append(
+                f"{indent}  {servo_obj}.writeMicroseconds(static_cast<int>(__redu_pulse + 0.5f));"
             )
             lines.append(f"{indent}}}")
             continue
@@ -2525,6 +2533,13 @@ def emit(ast: Program) -> str:
     # Pass 1: collect LED declarations to create globals & pinModes in setup()
     pin_mode_emitted: Set[Tuple[str, ...]] = set()
 
+    def _emit_nearest_int(v: Union[int, float, str]) -> str:
+        """Render ``v`` for a C++ ``int`` parameter: a float literal becomes the nearest integer."""
+
+        if isinstance(v, float) and abs(v) < float("inf"):
+            v = int(v - 0.5) if v < 0 else int(v + 0.5)
+        return f"static_cast<int>({_emit_expr(v)})"
+
     def _ensure_servo_globals(node: ServoDecl) -> Dict[str, str]:
         nonlocal servo_used
         servo_used = True
@@ -2690,13 +2705,13 @@ def emit(ast: Program) -> str:
             if node.name not in servo_attach_emitted:
                 servo_attach_emitted.add(node.name)
                 pin_expr = _emit_expr(node.pin)
-                min_pulse_expr = _emit_expr(node.min_pulse_us)
-                max_pulse_expr = _emit_expr(node.max_pulse_us)
+                min_pulse_expr = _emit_nearest_int(node.min_pulse_us)
+                max_pulse_expr = _emit_nearest_int(node.max_pulse_us)
                 setup_lines.append(
-                    f"  {info['object']}.attach({pin_expr}, static_cast<int>({min_pulse_expr}), static_cast<int>({max_pulse_expr}));"
+                    f"  {info['object']}.attach({pin_expr}, {min_pulse_expr}, {max_pulse_expr});"
                 )
                 setup_lines.append(
-                    f"  {info['object']}.writeMicroseconds(static_cast<int>({min_pulse_expr}));"
+                    f"  {info['object']}.writeMicroseconds({min_pulse_expr});"
                 )
             continue
 
@@ -2869,13 +2884,13 @@ def emit(ast: Program) -> str:
             if node.name not in servo_attach_emitted:
                 servo_attach_emitted.add(node.name)
                 pin_expr = _emit_expr(node.pin)
-                min_pulse_expr = _emit_expr(node.min_pulse_us)
-                max_pulse_expr = _emit_expr(node.max_pulse_us)
+                min_pulse_expr = _emit_nearest_int(node.min_pulse_us)
+                max_pulse_expr = _emit_nearest_int(node.max_pulse_us)
                 setup_lines.append(
-                    f"  {info['object']}.attach({pin_expr}, static_cast<int>({min_pulse_expr}), static_cast<int>({max_pulse_expr}));"
+                    f"  {info['object']}.attach({pin_expr}, {min_pulse_expr}, {max_pulse_expr});"
                 )
                 setup_lines.append(
-                    f"  {info['object']}.writeMicroseconds(static_cast<int>({min_pulse_expr}));"
+                    f"  {info['object']}.writeMicroseconds({min_pulse_expr});"
                 )
             continue
 
